@@ -28,8 +28,9 @@ was pushed before a commit was pushed is in its ring before that commit is poppe
 pass, hence before the second pass begins, the batch of a cycle contains every command that
 happened-before any commit it processes.  That last temporal step is an argument about the
 real-time order of pushes, exercised by stepped cycles (corpus `C0x/D4-*.txt`), not a Lean
-theorem.  Remaining open finding D14: a command consumed one cycle before its trace's *start*
-(see DESIGN.md §0.3).
+theorem.  D14 (a command consumed one cycle before its trace's *start*) is repaired: commands
+first seen in the second pass wait for the next cycle unless a commit of this cycle needs them
+(`C03_second_pass_waits_for_start`, `Sys.carried`; DESIGN.md §0.3).
 -/
 namespace Fastrace
 
